@@ -404,6 +404,8 @@ def run(R: Run):
             t += Fraction(rng.choice([1, 3]), 4)
         if s < 0:
             t = Ns - t
+        if Fraction(float(t)) != t or abs(Nd * s) + abs(t) + Ns > 2**53:
+            continue  # some intermediate of the code would not be an exact double
         res = []
 
         def f4():
